@@ -42,6 +42,9 @@ type Node struct {
 	Tag         uint32
 	Data        []byte  // content octets when primitive
 	Children    []*Node // content when constructed
+	// Inner, when non-nil on a primitive node, is BER wrapped inside the
+	// content octets (control values): content = concatenation of Inner.
+	Inner []*Node
 
 	// LenOverride, when non-nil, replaces the length octets on encoding (used
 	// by the mutation generators to corrupt lengths).
@@ -64,6 +67,9 @@ func (n *Node) Clone() *Node {
 	}
 	for _, ch := range n.Children {
 		c.Children = append(c.Children, ch.Clone())
+	}
+	for _, ch := range n.Inner {
+		c.Inner = append(c.Inner, ch.Clone())
 	}
 	return c
 }
@@ -117,6 +123,13 @@ func appendLen(b []byte, l int, long int) []byte {
 // Content returns the content octets.
 func (n *Node) Content() []byte {
 	if !n.Constructed {
+		if n.Inner != nil {
+			var c []byte
+			for _, ch := range n.Inner {
+				c = ch.AppendTo(c)
+			}
+			return c
+		}
 		return n.Data
 	}
 	var c []byte
